@@ -325,3 +325,46 @@ pub fn scratch_dir(tag: &str) -> PathBuf {
     std::fs::create_dir_all(&p).expect("scratch dir");
     p
 }
+
+// ---------------------------------------------------------------------------------------------
+// Watchdog: a check that stops making progress (a hang inside yaserde, a stuck child) ends
+// INCONCLUSIVE (exit 2), never as a violation.
+
+pub struct Watchdog {
+    progress: std::sync::Arc<std::sync::atomic::AtomicU64>,
+    stop: std::sync::Arc<std::sync::atomic::AtomicBool>,
+}
+
+impl Watchdog {
+    pub fn start(id: &str, stall_secs: u64) -> Watchdog {
+        use std::sync::atomic::Ordering;
+        let progress = std::sync::Arc::new(std::sync::atomic::AtomicU64::new(0));
+        let stop = std::sync::Arc::new(std::sync::atomic::AtomicBool::new(false));
+        let (p, s, id) = (progress.clone(), stop.clone(), id.to_string());
+        std::thread::spawn(move || {
+            let mut last = p.load(Ordering::Relaxed);
+            let mut since = Instant::now();
+            loop {
+                std::thread::sleep(std::time::Duration::from_millis(500));
+                if s.load(Ordering::Relaxed) {
+                    return;
+                }
+                let cur = p.load(Ordering::Relaxed);
+                if cur != last {
+                    last = cur;
+                    since = Instant::now();
+                } else if since.elapsed().as_secs() >= stall_secs {
+                    println!("INCONCLUSIVE property={id} no progress for {stall_secs}s (watchdog)");
+                    std::process::exit(2);
+                }
+            }
+        });
+        Watchdog { progress, stop }
+    }
+    pub fn tick(&self) {
+        self.progress.fetch_add(1, std::sync::atomic::Ordering::Relaxed);
+    }
+    pub fn stop(&self) {
+        self.stop.store(true, std::sync::atomic::Ordering::Relaxed);
+    }
+}
